@@ -284,6 +284,44 @@ type Engine struct {
 	pkgs map[string]*ssa.Package
 	uncomparable map[int]bool
 	globalFuncInit map[string]*ssa.Function
+	elemKeys  map[string]int      // slice element types seen in type facts -> index of their okslice_<k> predicate
+	elemTypes []types.Type
+	structTags []int              // tags of the named struct types registered at load time (deterministic order)
+}
+
+// elemIndex registers a slice element type and returns the index of its backing-object predicate.
+func (e *Engine) elemIndex(el types.Type) int {
+	e.mu.Lock()
+	defer e.mu.Unlock()
+	k := typeKey(el)
+	if i, ok := e.elemKeys[k]; ok {
+		return i
+	}
+	i := len(e.elemTypes)
+	e.elemKeys[k] = i
+	e.elemTypes = append(e.elemTypes, el)
+	return i
+}
+
+// typeContains: does a value of type t hold (by value: fields, array elements) a cell of type el?
+func typeContains(t, el types.Type, depth int) bool {
+	if depth > 6 {
+		return true
+	}
+	if types.Identical(t, el) || typeKey(t) == typeKey(el) {
+		return true
+	}
+	switch u := t.Underlying().(type) {
+	case *types.Struct:
+		for i := 0; i < u.NumFields(); i++ {
+			if typeContains(u.Field(i).Type(), el, depth+1) {
+				return true
+			}
+		}
+	case *types.Array:
+		return typeContains(u.Elem(), el, depth+1)
+	}
+	return false
 }
 
 var reByteRune = regexp.MustCompile(`\b(byte|rune)\b`)
@@ -832,6 +870,27 @@ func (t *tr) ptrTypeInvariant(ty types.Type) (int, bool) {
 	return t.eng.tag(pt.Elem()), true
 }
 
+// typeFactTerm: the type invariant of a value as one formula ("" when there is none); used under quantifiers.
+func (t *tr) typeFactTerm(term string, ty types.Type) string {
+	var save strings.Builder
+	save.WriteString(t.out.String())
+	t.out.Reset()
+	t.typeFacts("true", term, ty)
+	got := t.out.String()
+	t.out.Reset()
+	t.out.WriteString(save.String())
+	var fs []string
+	for _, l := range strings.Split(got, "\n") {
+		if strings.HasPrefix(l, "(assert ") && strings.HasSuffix(l, ")") {
+			fs = append(fs, l[len("(assert "):len(l)-1])
+		}
+	}
+	if len(fs) == 0 {
+		return ""
+	}
+	return "(and " + strings.Join(fs, " ") + ")"
+}
+
 func (t *tr) typeFacts(guard, term string, ty types.Type) {
 	switch u := ty.Underlying().(type) {
 	case *types.Pointer:
@@ -843,9 +902,11 @@ func (t *tr) typeFacts(guard, term string, ty types.Type) {
 		t.assume(guard, fmt.Sprintf("(iface_wf %s)", term))
 	case *types.Slice:
 		t.assume(guard, fmt.Sprintf("(and (<= 0 (soff %s)) (<= 0 (slen %s)) (<= (slen %s) (scap %s)) (<= (scap %s) 72057594037927936) (=> (> (scap %s) 0) (> (sref %s) 0)) (>= (sref %s) 0) (=> (= (sref %s) 0) (= %s nullslice)))", term, term, term, term, term, term, term, term, term, term))
-		// a slice whose element type occurs in no array type can only point into an object made by make/append
+		// typed memory: a []E can only point into an object that holds cells of type E
 		if !t.eng.arrayElem[types.TypeString(u.Elem(), nil)] {
 			t.assume(guard, fmt.Sprintf("(=> (> (scap %s) 0) (= (styp %s) %d))", term, term, t.eng.sliceTag(ty)))
+		} else {
+			t.assume(guard, fmt.Sprintf("(=> (> (scap %s) 0) (okslice_%d (styp %s)))", term, t.eng.elemIndex(u.Elem()), term))
 		}
 	case *types.Map, *types.Chan:
 		t.assume(guard, fmt.Sprintf("(>= %s 0)", term))
@@ -1220,7 +1281,7 @@ func (t *tr) run() (err error) {
 	if t.own != nil {
 		t.refinesPre()
 		for _, r := range t.own.Requires {
-			term, e := t.evalBool(r.Expr, t.entryEnv, t.entryHeaps(), t.entryHeaps())
+			term, e := t.evalAssume(r.Expr, t.entryEnv, t.entryHeaps(), t.entryHeaps())
 			if e != nil {
 				t.fatalf("requires %s (%s): %v", r.Label, r.Where, e)
 				continue
@@ -1557,7 +1618,7 @@ func (t *tr) cutLoop(b *ssa.BasicBlock, k int, entry map[string]string) map[stri
 	}
 	for _, inv := range ls.Invariants {
 		env := t.loopEnv(b, entryVals)
-		term, err := t.evalBool(inv.Expr, env, entry, t.oldHeaps)
+		term, err := t.evalGoal(inv.Expr, env, entry, t.oldHeaps)
 		if err != nil {
 			t.fatalf("loop %d invariant %s (%s): %v", k, inv.Label, inv.Where, err)
 			continue
@@ -1617,7 +1678,7 @@ func (t *tr) cutLoop(b *ssa.BasicBlock, k int, entry map[string]string) map[stri
 	}
 	for _, inv := range ls.Invariants {
 		env := t.loopEnv(b, nil)
-		term, err := t.evalBool(inv.Expr, env, heaps, t.oldHeaps)
+		term, err := t.evalAssume(inv.Expr, env, heaps, t.oldHeaps)
 		if err != nil {
 			continue // reported above
 		}
@@ -1664,7 +1725,7 @@ func (t *tr) backEdge(b, s *ssa.BasicBlock, heaps map[string]string, pos token.P
 	}
 	for _, inv := range st.ls.Invariants {
 		env := t.loopEnv(s, phiVals)
-		term, err := t.evalBool(inv.Expr, env, heaps, t.oldHeaps)
+		term, err := t.evalGoal(inv.Expr, env, heaps, t.oldHeaps)
 		if err != nil {
 			t.fatalf("loop %d invariant %s at back edge: %v", st.k, inv.Label, err)
 			continue
@@ -1698,7 +1759,7 @@ func (t *tr) refinesPre() {
 		}
 		var hyps []string
 		for _, r := range ifs.Requires {
-			term, err := t.evalBool(r.Expr, renv, t.oldHeaps, t.oldHeaps)
+			term, err := t.evalAssume(r.Expr, renv, t.oldHeaps, t.oldHeaps)
 			if err != nil {
 				t.fatalf("refines %s requires %s: %v", key, r.Label, err)
 				continue
@@ -1727,7 +1788,7 @@ func (t *tr) refinesPre() {
 				t.abstractf("object invariant in %s assumed at interface calls (%s)", r.Label, key)
 				continue
 			}
-			term, err := t.evalBool(r.Expr, t.entryEnv, t.oldHeaps, t.oldHeaps)
+			term, err := t.evalGoal(r.Expr, t.entryEnv, t.oldHeaps, t.oldHeaps)
 			if err != nil {
 				continue
 			}
